@@ -1,11 +1,30 @@
 (* C12 - hashmap.nelua, part 5: clear, value update, iteration (pairs), removal while iterating,
    one step of the driver against the association-list specification, whole histories. *)
 From Coq Require Import ZArith List Bool Lia Arith Permutation.
-From C12 Require Import Gen Model ProofsBase ProofsVec ProofsAL ProofsHM1 ProofsHM2 ProofsHM3 ProofsHM4.
+From C12 Require Import Gen Model ProofsBase ProofsVec ProofsAL ProofsHM1 ProofsHM2 ProofsFM ProofsHM3 ProofsHM4.
 Import ListNotations.
 
 Lemma skipn_skipn : forall A x y (l : list A), skipn x (skipn y l) = skipn (x + y) l.
 Proof. intros. apply nth_error_ext; intro i. rewrite !nthe_skipn. f_equal. lia. Qed.
+
+(* ---- how large a request must be before the bucket-count rounding can wrap (the only source of TrapOverflow) *)
+Lemma ceilidiv_le : forall x y c, 0 < y -> x <= c * y -> ceilidiv x y <= c.
+Proof.
+  intros x y c Hy H. unfold ceilidiv. apply Nat.lt_succ_r. apply Nat.div_lt_upper_bound; [lia|]. nia.
+Qed.
+
+(* the only facts about the scraped tuning constants the bound below needs; a retune beyond them stops this proof *)
+Lemma hm_rate_facts : HM_GROW_n <= 4 * HM_MAXLF_n /\ 100 <= 4 * HM_MAXLF_n /\ HM_INIT_n <= 1024.
+Proof. vm_compute. lia. Qed.
+
+Lemma at_request_small : forall s, (Z.of_nat s < 2 ^ 60)%Z -> (Z.of_nat (at_request s) <= 2 ^ 62)%Z.
+Proof.
+  intros s H. destruct hm_rate_facts as (G & L & I). pose proof hm_maxlf_pos as P.
+  assert (ceilidiv (s * 100) HM_MAXLF_n <= 4 * s) by (apply ceilidiv_le; [assumption|nia]).
+  assert (ceilidiv ((s + 1) * 100) HM_MAXLF_n <= 4 * (s + 1)) by (apply ceilidiv_le; [assumption|nia]).
+  assert (ceilidiv ((s + 1) * HM_GROW_n) HM_MAXLF_n <= 4 * (s + 1)) by (apply ceilidiv_le; [assumption|nia]).
+  unfold at_request. lia.
+Qed.
 
 Section HM5.
   Variables K V : Type.
@@ -113,12 +132,15 @@ Section HM5.
 
   (* ---- rehash / reserve as operations *)
   Lemma hm_rehash_op : forall n m, hm_inv m ->
-    hm_rehash K V kdflt vdflt keqb khash n m = Trap TrapOverflow \/
-    exists m', hm_rehash K V kdflt vdflt keqb khash n m = Ok m' /\ hm_inv m' /\ hm_abs m' = hm_abs m.
+    (hm_rehash K V kdflt vdflt keqb khash n m = Trap TrapOverflow /\
+     (2 ^ 62 < Z.of_nat (Nat.max n (ceilidiv (hsize m * 100) HM_MAXLF_n)))%Z /\
+     fm_rehash K V kdflt vdflt n (canon K V m) = Trap TrapOverflow) \/
+    exists m', hm_rehash K V kdflt vdflt keqb khash n m = Ok m' /\ hm_inv m' /\ hm_abs m' = hm_abs m /\
+      fm_rehash K V kdflt vdflt n (canon K V m) = Ok (canon K V m').
   Proof.
     intros n m (ch & fl & I).
     destruct (hm_rehash_ok K V kdflt vdflt keqb khash keqb_sym n m (KU_of_inv K V keqb khash _ _ _ I) (inv_size _ _ _ _ _ _ _ I))
-      as [(-> & _)|(m' & -> & I' & A & _)]; [left; reflexivity|right]. eauto.
+      as [(-> & B & FM)|(m' & -> & I' & A & _ & _ & _ & _ & _ & FM)]; [left; split; [reflexivity|split; assumption]|right]. eauto.
   Qed.
 
   (* the distinguished overflow outcome needs more than 2^62 buckets *)
@@ -128,14 +150,18 @@ Section HM5.
   Proof.
     intros n m (ch & fl & I) H.
     destruct (hm_rehash_ok K V kdflt vdflt keqb khash keqb_sym n m (KU_of_inv K V keqb khash _ _ _ I) (inv_size _ _ _ _ _ _ _ I))
-      as [(_ & B)|(m' & E & _)]; [assumption|]. rewrite E in H. discriminate.
+      as [(_ & B & _)|(m' & E & _)]; [assumption|]. rewrite E in H. discriminate.
   Qed.
 
   Lemma hm_reserve_op : forall n m, hm_inv m ->
-    hm_reserve K V kdflt vdflt keqb khash n m = Trap TrapOverflow \/
-    exists m', hm_reserve K V kdflt vdflt keqb khash n m = Ok m' /\ hm_inv m' /\ hm_abs m' = hm_abs m.
+    (hm_reserve K V kdflt vdflt keqb khash n m = Trap TrapOverflow /\
+     (2 ^ 62 < Z.of_nat (Nat.max (ceilidiv (n * 100) HM_MAXLF_n) (ceilidiv (hsize m * 100) HM_MAXLF_n)))%Z /\
+     fm_reserve K V kdflt vdflt n (canon K V m) = Trap TrapOverflow) \/
+    exists m', hm_reserve K V kdflt vdflt keqb khash n m = Ok m' /\ hm_inv m' /\ hm_abs m' = hm_abs m /\
+      fm_reserve K V kdflt vdflt n (canon K V m) = Ok (canon K V m').
   Proof.
-    intros n m I. unfold hm_reserve. destruct (_ <? _); [apply hm_rehash_op; assumption|right; eauto].
+    intros n m I. unfold hm_reserve, fm_reserve. rewrite (canon_len_b K V).
+    destruct (_ <? _); [apply hm_rehash_op; assumption|right; eauto].
   Qed.
 
   (* ---- iteration in node order *)
@@ -226,7 +252,7 @@ Section HM5.
     destruct (pred (nkey nd) (nval nd)) eqn:Pq; [destruct (keqb (nkey nd) (nkey nd)) eqn:Rk|].
     - (* the visited key is removed *)
       destruct (hm_remove_ok K V kdflt vdflt keqb khash keqb_sym keqb_trans hash_coh m (nkey nd) Hinv)
-        as (m1 & -> & I1 & HF1 & ST). cbn [rbind fst].
+        as (m1 & -> & I1 & HF1 & ST & _). cbn [rbind fst].
       assert (al_find (nkey nd) (hm_abs m) = Some (nkey nd, nval nd)) as AF.
       { destruct Hinv as (ch & fl & I). apply al_find_in; auto.
         - eapply abs_nodup; eauto.
@@ -255,7 +281,7 @@ Section HM5.
       rewrite A', HF1', HS1, F. cbn [filter]. unfold keep at 2. cbn [fst snd]. rewrite Pq, Rk. reflexivity.
     - (* the predicate selects the binding but its key is not == to itself: remove finds nothing *)
       destruct (hm_remove_ok K V kdflt vdflt keqb khash keqb_sym keqb_trans hash_coh m (nkey nd) Hinv)
-        as (m1 & -> & I1 & HF1 & ST). cbn [rbind fst].
+        as (m1 & -> & I1 & HF1 & ST & _). cbn [rbind fst].
       assert (al_find (nkey nd) (hm_abs m) = None) as AF.
       { apply al_find_none. intros kv _. apply (irrefl_matches_nothing K keqb keqb_sym keqb_trans). assumption. }
       rewrite AF in ST. subst m1.
@@ -334,21 +360,38 @@ Section HM5.
     eapply keys_nodup_perm; eauto.
   Qed.
 
+  (* the largest bucket count operation o can request of a map holding s bindings (0: it requests nothing) *)
+  Definition hop_request (o : hop K V) (s : nat) : nat :=
+    match o with
+    | HSet _ _ _ _ | HGet _ _ _ => at_request s
+    | HReserve _ _ n => Nat.max (ceilidiv (n * 100) HM_MAXLF_n) (ceilidiv (s * 100) HM_MAXLF_n)
+    | HRehash _ _ n => Nat.max n (ceilidiv (s * 100) HM_MAXLF_n)
+    | _ => 0
+    end.
+
+  Lemma R_size : forall m al, hm_R m al -> hsize m = length al.
+  Proof.
+    intros m al (I & P). rewrite <- (Permutation_length P), <- (hm_len_abs m I). reflexivity.
+  Qed.
+
+  (* The distinguished outcome Trap TrapOverflow (the power-of-two rounding of a bucket count wrapped, where the
+     implementation would go on with a zero-sized table) is only possible when the request exceeds 2^62 buckets. *)
   Theorem hm_step_refines : forall o m al, hm_R m al ->
-    hm_step K V kdflt vdflt keqb khash o m = Trap TrapOverflow \/
+    (hm_step K V kdflt vdflt keqb khash o m = Trap TrapOverflow /\
+     (2 ^ 62 < Z.of_nat (hop_request o (length al)))%Z) \/
     exists m' r al' r', hm_step K V kdflt vdflt keqb khash o m = Ok (m', r) /\
       al_step K V vdflt keqb o al = Ok (al', r') /\ hm_R m' al' /\ ret_rel r r'.
   Proof.
-    intros o m al R. destruct (R_nodup _ _ R) as (NDm & NDa). destruct R as (I & P).
+    intros o m al R. destruct (R_nodup _ _ R) as (NDm & NDa). pose proof (R_size _ _ R) as HSZ. destruct R as (I & P).
     pose proof (fun k => al_find_perm K V keqb keqb_sym keqb_trans _ _ k NDm P) as FP.
     pose proof (fun k => al_get_perm K V keqb keqb_sym keqb_trans _ _ k NDm P) as GP.
     destruct o; cbn [hm_step al_step].
     - (* set *)
-      destruct (hm_set_ok K V kdflt vdflt keqb khash keqb_sym keqb_trans hash_coh m k v I) as [->|(m' & -> & I' & HP)]; [left; reflexivity|right].
+      destruct (hm_set_ok K V kdflt vdflt keqb khash keqb_sym keqb_trans hash_coh m k v I) as [(-> & Hbig & _)|(m' & -> & I' & HP & _)]; [left; split; [reflexivity|cbn [hop_request]; rewrite <- HSZ; assumption]|right].
       cbn [rbind]. do 4 eexists. split; [reflexivity|]. split; [reflexivity|]. split; [|cbn; reflexivity].
       split; [assumption|]. eapply Permutation_trans; [exact HP|]. apply (al_set_perm K V keqb keqb_sym keqb_trans); assumption.
     - (* get *)
-      destruct (hm_get_ok K V kdflt vdflt keqb khash keqb_sym keqb_trans hash_coh m k I) as [->|(m' & -> & I' & HP)]; [left; reflexivity|right].
+      destruct (hm_get_ok K V kdflt vdflt keqb khash keqb_sym keqb_trans hash_coh m k I) as [(-> & Hbig & _)|(m' & -> & I' & HP & _)]; [left; split; [reflexivity|cbn [hop_request]; rewrite <- HSZ; assumption]|right].
       cbn [rbind fst snd]. rewrite al_get_find, <- (FP k).
       destruct (al_find k (hm_abs m)) as [kv|] eqn:AF; cbn [option_map].
       + do 4 eexists. split; [reflexivity|]. split; [reflexivity|]. split; [|cbn; reflexivity].
@@ -381,11 +424,11 @@ Section HM5.
       right. destruct (hm_clear_ok m I) as (I' & A). do 4 eexists. split; [reflexivity|]. split; [reflexivity|].
       split; [|cbn; reflexivity]. split; [assumption|]. rewrite A. constructor.
     - (* reserve *)
-      destruct (hm_reserve_op n m I) as [->|(m' & -> & I' & A)]; [left; reflexivity|right]. cbn [rbind].
+      destruct (hm_reserve_op n m I) as [(-> & Hbig & _)|(m' & -> & I' & A & _)]; [left; split; [reflexivity|cbn [hop_request]; rewrite <- HSZ; assumption]|right]. cbn [rbind].
       do 4 eexists. split; [reflexivity|]. split; [reflexivity|]. split; [|cbn; reflexivity].
       split; [assumption|]. rewrite A. assumption.
     - (* rehash *)
-      destruct (hm_rehash_op n m I) as [->|(m' & -> & I' & A)]; [left; reflexivity|right]. cbn [rbind].
+      destruct (hm_rehash_op n m I) as [(-> & Hbig & _)|(m' & -> & I' & A & _)]; [left; split; [reflexivity|cbn [hop_request]; rewrite <- HSZ; assumption]|right]. cbn [rbind].
       do 4 eexists. split; [reflexivity|]. split; [reflexivity|]. split; [|cbn; reflexivity].
       split; [assumption|]. rewrite A. assumption.
     - (* removal while iterating *)
@@ -408,7 +451,7 @@ Section HM5.
   Theorem hm_irrefl_key : forall m k v, hm_inv m -> keqb k k = false ->
     hm_peek K V keqb khash k m = Ok None /\
     (exists m', hm_remove K V kdflt vdflt keqb khash k m = Ok (m', None) /\ hm_abs m' = hm_abs m) /\
-    (hm_set K V kdflt vdflt keqb khash k v m = Trap TrapOverflow \/
+    ((hm_set K V kdflt vdflt keqb khash k v m = Trap TrapOverflow /\ (2 ^ 62 < Z.of_nat (at_request (hsize m)))%Z) \/
      exists m', hm_set K V kdflt vdflt keqb khash k v m = Ok m' /\ hm_inv m' /\ Permutation (hm_abs m') ((k, v) :: hm_abs m)).
   Proof.
     intros m k v I Hk.
@@ -418,7 +461,7 @@ Section HM5.
     - rewrite (hm_peek_ok K V keqb khash keqb_sym keqb_trans hash_coh m k I), al_get_find, AF. reflexivity.
     - destruct (hm_remove_ok K V kdflt vdflt keqb khash keqb_sym keqb_trans hash_coh m k I) as (m' & E & _ & HA & _).
       rewrite al_get_find, AF in E. exists m'. split; [exact E|]. rewrite HA. apply al_remove_none. assumption.
-    - destruct (hm_set_ok K V kdflt vdflt keqb khash keqb_sym keqb_trans hash_coh m k v I) as [->|(m' & -> & I' & HP)]; [left; reflexivity|right].
+    - destruct (hm_set_ok K V kdflt vdflt keqb khash keqb_sym keqb_trans hash_coh m k v I) as [(-> & Hbig & _)|(m' & -> & I' & HP & _)]; [left; split; [reflexivity|assumption]|right].
       exists m'. split; [reflexivity|]. split; [assumption|].
       rewrite (al_set_none K V keqb k v _ AF) in HP. eapply Permutation_trans; [exact HP|].
       apply Permutation_sym. apply Permutation_cons_append.
@@ -436,18 +479,85 @@ Section HM5.
     | o :: tl => p <- al_step K V vdflt keqb o al ;; q <- al_run tl (fst p) ;; Ok (fst q, snd p :: snd q)
     end.
 
+  (* a history either runs to the end in step with the specification, or stops at the first operation whose
+     request (evaluated on the specification's own state) exceeds 2^62 buckets *)
   Theorem hm_run_refines : forall ops m al, hm_R m al ->
-    hm_run ops m = Trap TrapOverflow \/
+    (hm_run ops m = Trap TrapOverflow /\
+     exists pre o post al0 rs0, ops = pre ++ o :: post /\ al_run pre al = Ok (al0, rs0) /\
+       (2 ^ 62 < Z.of_nat (hop_request o (length al0)))%Z) \/
     exists m' rs al' rs', hm_run ops m = Ok (m', rs) /\ al_run ops al = Ok (al', rs') /\
       hm_R m' al' /\ Forall2 ret_rel rs rs'.
   Proof.
     induction ops as [|o tl IH]; intros m al R; cbn [hm_run al_run].
     - right. do 4 eexists. split; [reflexivity|]. split; [reflexivity|]. split; [assumption|constructor].
-    - destruct (hm_step_refines o m al R) as [->|(m1 & r & al1 & r' & -> & -> & R1 & RR)]; [left; reflexivity|].
-      cbn [rbind fst snd].
-      destruct (IH m1 al1 R1) as [->|(m2 & rs & al2 & rs' & -> & -> & R2 & RRs)]; [left; reflexivity|right].
-      cbn [rbind fst snd]. do 4 eexists. split; [reflexivity|]. split; [reflexivity|]. split; [assumption|].
-      constructor; assumption.
+    - destruct (hm_step_refines o m al R) as [(-> & Hbig)|(m1 & r & al1 & r' & -> & Eal & R1 & RR)].
+      { left. split; [reflexivity|]. exists [], o, tl, al, []. split; [reflexivity|]. split; [reflexivity|assumption]. }
+      rewrite Eal. cbn [rbind fst snd].
+      destruct (IH m1 al1 R1) as [(-> & pre & o' & post & al0 & rs0 & -> & Hpre & Hbig)|(m2 & rs & al2 & rs' & -> & -> & R2 & RRs)]; [left|right].
+      + split; [reflexivity|]. exists (o :: pre), o', post, al0, (r' :: rs0). split; [reflexivity|].
+        split; [|assumption]. cbn [al_run]. rewrite Eal. cbn [rbind fst snd]. rewrite Hpre. reflexivity.
+      + cbn [rbind fst snd]. do 4 eexists. split; [reflexivity|]. split; [reflexivity|]. split; [assumption|].
+        constructor; assumption.
+  Qed.
+
+  (* ---- no overflow for histories of any realistic size *)
+  Lemma al_set_len : forall k v al, length (al_set K V keqb k v al) <= length al + 1.
+  Proof.
+    induction al as [|[k' v'] tl IH]; cbn [al_set length]; [lia|]. destruct (keqb k k'); cbn [length]; lia.
+  Qed.
+  Lemma al_remove_len : forall k al, length (al_remove K V keqb k al) <= length al.
+  Proof.
+    induction al as [|[k' v'] tl IH]; cbn [al_remove length]; [lia|]. destruct (keqb k k'); cbn [length]; lia.
+  Qed.
+  Lemma al_step_len : forall o al al' r, al_step K V vdflt keqb o al = Ok (al', r) -> length al' <= length al + 1.
+  Proof.
+    intros o al al' r H. destruct o; cbn [al_step] in H;
+      try (destruct (al_get K V keqb k al)); inversion H; subst; clear H;
+      try (pose proof (al_set_len k v al)); try (pose proof (al_set_len k vdflt al)); try (pose proof (al_remove_len k al));
+      try rewrite map_length; cbn [length]; try lia.
+    pose proof (filter_len_le _ (fun kv : K * V => negb (p (fst kv) (snd kv) && keqb (fst kv) (fst kv))) al). lia.
+  Qed.
+  Lemma al_run_len : forall ops al al' rs, al_run ops al = Ok (al', rs) -> length al' <= length al + length ops.
+  Proof.
+    induction ops as [|o tl IH]; intros al al' rs H; cbn [al_run] in H.
+    - inversion H; subst. cbn. lia.
+    - destruct (al_step K V vdflt keqb o al) as [[al1 r]|t] eqn:E; [|discriminate]. cbn [rbind fst snd] in H.
+      destruct (al_run tl al1) as [[al2 rs2]|t] eqn:E2; [|discriminate]. cbn [rbind fst snd] in H. inversion H; subst.
+      pose proof (al_step_len _ _ _ _ E). pose proof (IH _ _ _ E2). cbn [length]. lia.
+  Qed.
+
+  Definition hop_count (o : hop K V) : nat :=
+    match o with HReserve _ _ n | HRehash _ _ n => n | _ => 0 end.
+
+  Lemma hop_request_small : forall o s, (Z.of_nat s < 2 ^ 60)%Z -> (Z.of_nat (hop_count o) < 2 ^ 60)%Z ->
+    (Z.of_nat (hop_request o s) <= 2 ^ 62)%Z.
+  Proof.
+    intros o s Hs Hc. destruct hm_rate_facts as (G & L & _). pose proof hm_maxlf_pos as P.
+    assert (ceilidiv (s * 100) HM_MAXLF_n <= 4 * s) by (apply ceilidiv_le; [assumption|nia]).
+    destruct o; cbn [hop_request hop_count] in *; try (apply at_request_small; assumption); try lia.
+    assert (ceilidiv (n * 100) HM_MAXLF_n <= 4 * n) by (apply ceilidiv_le; [assumption|nia]). lia.
+  Qed.
+
+  Theorem hm_step_no_overflow : forall o m al, hm_R m al ->
+    (Z.of_nat (length al) < 2 ^ 60)%Z -> (Z.of_nat (hop_count o) < 2 ^ 60)%Z ->
+    hm_step K V kdflt vdflt keqb khash o m <> Trap TrapOverflow.
+  Proof.
+    intros o m al R Hs Hc E. destruct (hm_step_refines o m al R) as [(_ & Hbig)|(m' & r & al' & r' & E' & _)].
+    - pose proof (hop_request_small o _ Hs Hc). lia.
+    - rewrite E in E'. discriminate.
+  Qed.
+
+  Theorem hm_run_no_overflow : forall ops m al, hm_R m al ->
+    (Z.of_nat (length al + length ops) < 2 ^ 60)%Z ->
+    (forall o, In o ops -> (Z.of_nat (hop_count o) < 2 ^ 60)%Z) ->
+    hm_run ops m <> Trap TrapOverflow.
+  Proof.
+    intros ops m al R Hs Hc E.
+    destruct (hm_run_refines ops m al R) as [(_ & pre & o & post & al0 & rs0 & -> & Hpre & Hbig)|(m' & rs & al' & rs' & E' & _)].
+    - pose proof (al_run_len _ _ _ _ Hpre) as L. rewrite app_length in Hs. cbn [length] in Hs.
+      assert (Z.of_nat (hop_request o (length al0)) <= 2 ^ 62)%Z; [|lia].
+      apply hop_request_small; [lia|]. apply Hc. apply in_or_app. right; left; reflexivity.
+    - rewrite E in E'. discriminate.
   Qed.
 
   Lemma hm_R_empty : hm_R (hm_empty K V) [].
